@@ -698,6 +698,46 @@ def rule_r5(chk):
         ok = (r, c) == (rows, cols) and wrt == "SV.eid_to_wrt_tokens" and off == "eid_to_rhs_offset"
         chk.ob("C02-R5", f"fords.descriptors.SystemMap.{letter}", ok,
                f"rows={r} columns={c} wrt={wrt} offsets={off}; shape_{letter} is (len({rows}), len({cols.replace('lagged_', '')}))", dm.loc(node))
+    # what the columns of B are, by finite evaluation of the statements that define them, on token vectors with one-period and
+    # two-period lags, leads and static variables: column j of B is x_j lagged once when that token is not itself an element of the
+    # vector (then A has the column), and no wrt token can land in both A and B
+    from .. import fin as _fin
+
+    class _Tok(_fin.FinObj):
+        def __init__(self, qid, shift):
+            super().__init__(qid=qid, shift=shift)
+        def shifted(self, by):
+            return _Tok(self.qid, self.shift + by)
+        def __eq__(self, o):
+            return isinstance(o, _Tok) and (self.qid, self.shift) == (o.qid, o.shift)
+        def __hash__(self):
+            return hash((self.qid, self.shift))
+        def __repr__(self):
+            return f"x{self.qid}{{{self.shift}}}"
+    bnode = seen["B"][4]
+    bcols = bnode.value.args[2]
+    n_vec = 0
+    bad = None
+    for vec in ([(0, 1), (0, 0), (1, 0)], [(0, 0), (0, -1), (1, 0)], [(0, 1), (0, 0), (0, -1), (0, -2), (1, 0), (2, 0), (2, -1)], [(0, 0)],
+                [(1, 2), (1, 1), (0, 0), (1, 0), (0, -1)]):
+        tv = [_Tok(*x) for x in vec]
+        try:
+            env_b = _fin.run_prefix(g, bnode, {"system_vectors": _fin.FinObj(transition_variables=tuple(tv), transition_eids=(), measurement_eids=())})
+            cols = list(_fin.ev(bcols, env_b))
+        except (_fin.NotFinite, _fin.Raised) as ex:
+            bad = None
+            n_vec = 0
+            note = f"not finitely evaluable: {ex}"
+            break
+        n_vec += 1
+        want_cols = [t.shifted(-1) if t.shifted(-1) not in tv else None for t in tv]
+        if cols != want_cols:
+            bad = f"transition vector {tv}: B columns {cols}, but the lag of each element that is not itself in the vector is {want_cols}" \
+                  + ("; a token in both A and B is counted twice" if any(c is not None and c in tv for c in cols) else "")
+            break
+    chk.ob("C02-R5", "fords.descriptors.SystemMap.B[columns]", (bad is None) if n_vec else None,
+           bad or (f"on {n_vec} token vectors the columns of B are exactly the once-lagged elements that fall off the vector (None elsewhere)" if n_vec else note),
+           dm.loc(bnode), sure=bool(bad))
     # shapes agree with (rows, cols)
     sv = dm.func("SystemVectors.__init__")
     chk.saw(dm, "SystemVectors.__init__")
@@ -956,6 +996,10 @@ def run(chk):
     chk.guard(c20.rule_r7, chk, rid="C02-R7")
     from .. import unused as _unused
     chk.guard(_unused.apply, chk, "C02-R91")
+    from .. import variants as _variants
+    chk.guard(_variants.apply_wrappers, chk, "C02-R9", {"simultaneous", "fords", "steadiers", "stacked_time"})
+    from .. import once as _once
+    chk.guard(_once.apply, chk, "C02-R8")
     from .. import args as _args
     chk.guard(_args.apply, chk, "C02-R90", {'aldi', 'jacobians', 'period_by_period', 'stacked_time', 'steadiers'}, 1)
     chk.assumptions = [
